@@ -8,13 +8,13 @@ for name in "$@"; do
   if ! git diff --quiet; then echo "/repo is dirty"; exit 2; fi
   git apply "$d/patch.diff" || { echo "patch $name does not apply"; continue; }
   [ "${CHECKS:-}" = "own" ] && [ -s $d/matrix.txt ] && grep -q "^C20" $d/matrix.txt && { git -C /repo checkout -- .; echo "skip $name (full matrix present)"; continue; }
-  : > $d/matrix.txt
+  : > $d/${MATRIX_OUT:-matrix.txt}
   own=$(python3 -c "import json;print(json.load(open('$d/meta.json'))['breaks_property'])" 2>/dev/null || echo "${name%%-*}")
   if [ "${CHECKS:-}" = "own" ]; then list="$own"; else list="${CHECKS:-C01 C02 C03 C04 C05 C06 C07 C08 C09 C10 C11 C12 C13 C14 C15 C16 C17 C18 C19 C20}"; fi
   for c in $list; do
     out=$(cd /verif && timeout 1500 ./check "$c" 2>&1); rc=$?
     line=$(echo "$out" | grep -E -A1 "^(VIOLATION|OK)" | head -2 | tr '\n' ' ' | cut -c1-500)
-    echo "$c exit=$rc $line" >> $d/matrix.txt
+    echo "$c exit=$rc $line" >> $d/${MATRIX_OUT:-matrix.txt}
   done
   git -C /repo checkout -- .
   (cd /verif && git checkout -- evidence 2>/dev/null; true)
